@@ -179,6 +179,23 @@ def impl_single(c):
     o['sd'] = [float(sd.z), float(sd.y), float(sd.x)]
     sdi = p(SpatialDimension(x=v[2], y=v[1], z=v[0]), inverse=True)
     o['sd_inv'] = [float(sdi.z), float(sdi.y), float(sdi.x)]
+    # members of different kinds: python floats, an integer tensor next to python floats, a float batch next to a python int
+    vz, vy, vx = (float(t) for t in v)
+    variants = {'python floats': (vz / 4, vy / 4, vx / 4),
+                'int64 tensor z with python floats y, x': (torch.arange(4) + int(vz), vy / 4 + 0.5, vx / 4 - 1.75),
+                'float32 tensor batch y with python int z, x': (int(vz), torch.tensor([0.5, -1.25, float(vy)]), int(vx)),
+                'int32 0-dim tensor x with python floats': (vz / 2 + 0.25, vy / 2, torch.tensor(int(vx), dtype=torch.int32))}
+    o['sd_variants'] = {}
+    for name, (z_, y_, x_) in variants.items():
+        for inverse in (False, True):
+            try:
+                got = p(SpatialDimension(z=z_, y=y_, x=x_), inverse=inverse)
+                zz, yy, xx = torch.broadcast_tensors(*(torch.as_tensor(t, dtype=torch.float64) for t in (z_, y_, x_)))
+                want = p(torch.stack([zz, yy, xx], -1), inverse=inverse)
+                gotv = torch.stack(torch.broadcast_tensors(*(torch.as_tensor(t, dtype=torch.float64) for t in (got.z, got.y, got.x))), -1)
+                o['sd_variants'][f'{name}{", inverse" if inverse else ""}'] = float((gotv - want).abs().max())
+            except Exception as e:  # noqa: BLE001
+                o['sd_variants'][f'{name}{", inverse" if inverse else ""}'] = f'raises {type(e).__name__}: {str(e)[:80]}'
     return o
 
 
@@ -243,6 +260,9 @@ def oracle_single(c, o):
         return 'p(v, inverse=True) does not undo p(v)'
     if bad(o['sd'], o['pv']) or bad(o['sd_inv'], o['pinv_v']):
         return 'application to SpatialDimension(x,y,z) differs from application to the (z,y,x) vector'
+    for name, dev in o.get('sd_variants', {}).items():
+        if isinstance(dev, str) or dev > 1e-5:
+            return f'application to a SpatialDimension with {name} differs from application to the (z, y, x) vector: {dev}'
     for n, (Mn, fn, single) in zip(range(-5, 6), o['pow']):
         ref = np.linalg.matrix_power(A['Mp'] if n >= 0 else A['Mp'].T, abs(n))
         if bad(np.array(Mn).reshape(3, 3), ref):
